@@ -20,7 +20,7 @@ for p in props:
         "Lean 4 theorems about a hand-written executable model of the code (listed with their axioms in the evidence), "
         "tied to /repo on every run by (i) a differential correspondence run of the real code (dev / release / sanitizer builds, "
         "CPU masks where threads matter) against the compiled model, with a proved spec-level oracle evaluated on the implementation's "
-        "output, (ii) source pins on every modelled function body, and (iii) for C01-C12, C14-C19 models regenerated from the "
+        "output, (ii) source pins on every modelled function body, and (iii) for C01-C19 models regenerated from the "
         "Rust source by translators and re-proved equal to the hand-written models. A broken proof / tie triggers a search for a failing input (stress tier)."
         + ((" PARTIAL — " if cfg.get("partial") else " Scope notes — ") + "; ".join(opens) if opens else ""))
     checks.append({
@@ -32,7 +32,7 @@ for p in props:
         "engine": "lean4-model+correspondence",
         "level_claimed": {"category": level, "text": text, "design_ref": f"DESIGN.md §6 {pid}; docs/{pid}.md"},
         "level_note": cfg.get("level_note") or ("Trusted: Lean kernel; axioms propext/Classical.choice/Quot.sound only; the hand-written model (checked by the correspondence run, bounded by its generators); gharness/gdriver/orchestrator; Rust std containers as modelled. " + "; ".join(cfg.get("trusted_base", []))),
-        "technique": cfg.get("technique", "Lean 4 proof over executable model + differential correspondence check + source pins" + (" + source-to-Lean translator" if pid in ("C01", "C02", "C03", "C04", "C05", "C06", "C07", "C08", "C09", "C10", "C11", "C12", "C14", "C15", "C16", "C17", "C18", "C19") else "")),
+        "technique": cfg.get("technique", "Lean 4 proof over executable model + differential correspondence check + source pins" + (" + source-to-Lean translator" if pid in ("C01", "C02", "C03", "C04", "C05", "C06", "C07", "C08", "C09", "C10", "C11", "C12", "C13", "C14", "C15", "C16", "C17", "C18", "C19") else "")),
     })
 m = {
     "version": 1,
